@@ -105,7 +105,7 @@ def oracle(job, tr):
                 bad.append(("output-after-fail", "%d frames produced by a call made after the failure" % od))
             out += od
             # a short answer (fewer frames than asked for, no failure) means the stream is over: nothing may come afterwards
-            if short_seen and od and not failed:
+            if short_seen and od and not failed and not job.get("vr"):      # (variable rate: a ratio moved during the drain changes what is left)
                 bad.append(("short-then-more", "a soxr_output call returned fewer frames than requested although the stream had not "
                             "drained: %d more frames came from a later call" % od))
             if od < olen and not failed and r.get("err") != "1":
@@ -118,7 +118,7 @@ def oracle(job, tr):
             h = cr.parse_kv(l)
             err_reported = l.split("err=")[1].split(" ")[0] if "err=" in l else None
     info = {"supplied": supplied, "out": out, "ended": ended, "failed": failed}
-    if not bad and ended and not failed:
+    if not bad and ended and not failed and not job.get("vr"):
         exp, near = cr.owed_exact(supplied, job["cfg"])
         exp_c = int(supplied / cr.io_ratio(job["cfg"]) + .5)
         if out != exp and not (near and out == exp_c):
@@ -171,6 +171,36 @@ def run(ctx):
                           "(pull %s / one-shot of the same %d frames %s) (%s %s)" % (strip(tr.hashes[-1]), job.get("N"), strip(t2.hashes[-1]),
                                                                                    cr.create_line(job["cfg"]), job["env"]),
                           {"cfg": job["cfg"], "env": job["env"], "ops": job_ops(job, tr.plan), "pull": tr.hashes[-1], "oneshot": t2.hashes[-1]})
+    # ---- the variable-rate engine, with the ratio moved between the soxr_output calls by the idiom of soxr.h
+    #      (soxr_set_error(p, soxr_set_io_ratio(p, r, slew))): the same contract - bounded requests, nothing after end or failure, the
+    #      failure stays latched and no further output comes
+    def vr_job(i):
+        rng = common.Rng(ctx.rng.next())
+        mx = rng.choice([1.0, 1.5, 2.0, 4.0, 8.0, 3.7])
+        job = {"cfg": {"ir": repr(mx), "or": "1", "recipe": 4, "qflags": 32, "ch": 1 + rng.below(2), "itype": rng.choice([0, 1, 3]), "otype": rng.choice([0, 1, 3]),
+                       "ioflags": 8}, "env": {}, "N": rng.choice([300, 5000, 40000]), "seed": rng.next() & 0xffffffff, "idx": i,
+               "style": rng.choice(["eof", "fail", "fail"]), "clear_first": False, "vr": True}
+        ops = job_ops(job, [])
+        out = []
+        for o in ops:
+            if o.startswith("pull ") and rng.chance(.5):
+                out.append("ratio %r %d" % (mx * 2.0 ** -rng.uniform(0, 3), rng.choice([0, 0, 100, 1000])))
+            out.append(o)
+        return job, out
+
+    def vr_work(x):
+        job, ops = x
+        return job, ops, cr.run_trace(exe, ops, job["env"], timeout=120)
+    for job, ops, tr in cr.pmap(vr_work, [vr_job(i) for i in range(60 if ctx.quick else 2000)]):
+        ctx.count("evaluations"); ctx.count("vr_streams")
+        if tr.rc != 0:
+            ctx.violation("C18 (variable-rate engine): harness exit %s: %s (%s)" % (tr.rc, tr.err[-300:], cr.create_line(job["cfg"])), {"cfg": job["cfg"], "ops": ops})
+            continue
+        bad, info = oracle(job, tr)
+        ctx.hist("vr_style", job["style"] + ("/failed" if info.get("failed") else "/ended" if info.get("ended") else "/open"))
+        if bad:
+            ctx.violation("C18 fails on the real code (variable-rate engine, ratio moved by soxr_set_error(p, soxr_set_io_ratio(...)) between the calls): %s (%s)"
+                          % (bad[0][1], cr.create_line(job["cfg"])), {"cfg": job["cfg"], "ops": ops, "oracle": bad})
     ctx.cov["rule"] = ("pull-mode streams over random configurations with a scripted input function: full / single-frame / random short "
                        "supplies, end-of-input or failure at a random call index (then three more data answers on offer), max_ilen in "
                        "{0,1,7,64,1000,100000}, optional soxr_clear after registration; every (request, answer) pair logged by the harness, "
